@@ -1,4 +1,5 @@
 from ..framework import Spec
-from ..ties_sys import sys_tie
+from ..ties_sys import sys_tie, placement_tie
 
-SPEC = Spec(pid='C04', coq_needs=['Base', 'Layout', 'LayoutProofs', 'Program', 'Properties/C04'], ties=[sys_tie('C04')])
+SPEC = Spec(pid='C04', coq_needs=['Base', 'Layout', 'LayoutProofs', 'Program', 'Properties/C04'],
+            ties=[placement_tie(), sys_tie('C04')])
